@@ -59,7 +59,6 @@ type progGen struct {
 	p        *pool
 	rawOK    bool
 	excluded map[string]int // excluded draws (BASEFEE)
-	noKillBal bool          // exclusion: self-destruct only with zero own balance
 }
 
 func (g *progGen) w(ws ...int) int {
@@ -495,10 +494,6 @@ func (g *progGen) terminator(c *ctr) {
 	case 2:
 		c.a.push(size).push(memOut).op(opREVERT)
 	case 3:
-		if g.noKillBal {
-			// only with an empty balance (known finding exclusion)
-			c.a.op(opSELFBALANCE).pushLabel(c.fail).op(opJUMPI)
-		}
 		g.pushAddrExpr(c)
 		c.a.op(opSELFDESTRUCT)
 	case 4:
